@@ -17,6 +17,7 @@ pub mod c14;
 pub mod c15;
 pub mod c17;
 pub mod c18;
+pub mod c19;
 pub mod c20;
 pub mod common;
 
@@ -38,6 +39,7 @@ pub fn run(id: &str, tier: Tier) -> i32 {
         "C15" => c15::run(tier),
         "C17" => c17::run(tier),
         "C18" => c18::run(tier),
+        "C19" => c19::run(tier),
         "C20" => c20::run(tier),
         _ => machinery(&format!("no check for property {id}")),
     }
@@ -66,6 +68,7 @@ pub fn replay(id: &str, path: &str) -> i32 {
             "C15" => c15::replay(case),
             "C17" => c17::replay(case),
             "C18" => c18::replay(case),
+            "C19" => c19::replay(case),
             "C20" => c20::replay(case),
             _ => machinery(&format!("no replay for property {id}")),
         }
